@@ -1044,9 +1044,11 @@ def c15_generate(rng, tier):
     # the JSON text layer: writer text against Model/JsonText.lean; prefixes and damaged variants
     # through the model's scanner and through json.loads
     e = tag_cmp(genhist.gen_json_text(rng, count(tier, 150, 1500)), ["text", "prefix_not_none"])
-    for s in c + d + e:
+    # string literals through the model of CPython's string scanner and through json.loads / json.dumps
+    f = tag_cmp(genhist.gen_json_str(rng, count(tier, 300, 3000)), ["decoded", "encoded"])
+    for s in c + d + e + f:
         s["_rel"] = ["prefix_not_none"] if s["op"] == "json_text" else []
-    return tag_cmp(a, None) + b + c + d + e
+    return tag_cmp(a, None) + b + c + d + e + f
 
 
 def c15_search(rng, tier):
@@ -1098,9 +1100,9 @@ PROPS["C15"] = {"generate": c15_generate, "search": c15_search,
                 "nontrivial": lambda rec: rec["scn"].get("n", len(rec["scn"].get("names", []))) >= 2,
                 "judge": c15_judge,
                 "level": "proof",
-                "rule": "graphs, divisors (magnitudes up to 10^30, also results of CFLaplacian.apply), partial/full orientations, sparse/dense scripts with plain, Unicode, long, blank-containing, digit-like and hostile names; dict (through json text), JSON file and TXT file round trips compared observationally with the original; fault enumeration per written file: byte-prefix truncations (quick: 64 evenly spaced + last 16; thorough: all) and single-byte corruptions (quick 48 random; thorough every position x 3 values): must not raise, JSON proper prefixes must read None, anything returned must be a well-formed object; missing files read None",
+                "rule": "graphs, divisors (magnitudes up to 10^30, also results of CFLaplacian.apply), partial/full orientations, sparse/dense scripts with plain, Unicode, long, blank-containing, digit-like and hostile names; dict (through json text), JSON file and TXT file round trips compared observationally with the original; fault enumeration per written file: byte-prefix truncations (quick: 64 evenly spaced + last 16; thorough: all) and single-byte corruptions (quick 48 random; thorough every position x 3 values): must not raise, JSON proper prefixes must read None, anything returned must be a well-formed object; missing files read None; TXT file layer: the text the library writes must be in the image of the model's writer (representable names), the arguments read_txt hands to the constructors (recorded by replacing the constructors inside the data-processor module) must equal the model's parse on files as written (recorded, not demanded, on hand-damaged files); JSON text layer: the file must be the model encoder's text of the value actually written (key order and indent read off the file), every sampled proper prefix must be open for the model's scanner and rejected by json.loads, read_json must return None on it",
                 "theorems": ["graph_dict_roundtrip", "edge_list_canonical", "divisor_dict_roundtrip", "script_dict_roundtrip", "decimal_roundtrip", "orientation_dict_roundtrip", "txt_fields_roundtrip", "txt_line_roundtrip", "txt_int_field_clean", "txt_record_roundtrip",
-                             "txt_graph_file_roundtrip", "txt_divisor_file_roundtrip", "txt_orientation_file_roundtrip", "txt_script_file_roundtrip", "txt_int_roundtrip", "json_truncation_open", "json_truncation_open_any", "json_text_ascii", "txt_graph_object_roundtrip", "txt_divisor_object_roundtrip", "txt_script_object_roundtrip", "txt_orientation_object_roundtrip"]}
+                             "txt_graph_file_roundtrip", "txt_divisor_file_roundtrip", "txt_orientation_file_roundtrip", "txt_script_file_roundtrip", "txt_int_roundtrip", "json_truncation_open", "json_truncation_open_any", "json_text_ascii", "json_string_roundtrip", "txt_graph_file_roundtrip_crlf", "txt_graph_object_roundtrip", "txt_divisor_object_roundtrip", "txt_script_object_roundtrip", "txt_orientation_object_roundtrip"]}
 
 
 # ---- C19
